@@ -16,6 +16,7 @@ def serverCertOK (adv : String) (named : Bool) : Option Bool :=
   | "ok" => some true
   | "wrongkey" => some true            -- a perfectly valid certificate — of somebody else's key
   | "othername" => some (!named)       -- only wrong when a name was asked for
+  | "othertype" => some (!named)       -- the expected label under another name type is another name
   | "expired" => some false
   | "notyet" => some false
   | "wrongtype" => some false
@@ -70,6 +71,8 @@ def step (_ : Unit) : List String → Unit × String
   | ["hs", mode, pol, sAdv, cAdv, listed, name] =>
     let hidden := mode == "ik"
     if mode ≠ "xx" ∧ mode ≠ "ik" then ((), "bad-op") else
+    if listed ≠ "0" ∧ listed ≠ "1" ∧ listed ≠ "2" then ((), "bad-op") else
+    -- "2": the key was authorized and has been revoked again: not listed
     match policyOf pol, serverCertOK sAdv (name == "name"), clientFacts cAdv (listed == "1") with
     | some p, some sCert, some cf =>
       -- the "authkeys" policy has an empty trust store: no chain verifies
